@@ -535,6 +535,24 @@ class DestHandler:
                 TransactionStep.WAITING_FOR_FINISHED_ACK,
             ]
         ):
+            eof_pdu = pdu_holder.to_eof_pdu()
+            if (
+                self.states.step == TransactionStep.WAITING_FOR_MISSING_DATA
+                and eof_pdu.condition_code != ConditionCode.NO_ERROR
+            ):
+                # The sender cancelled the transaction while data was still missing. Perform the
+                # Cancel Response Procedures according to chapter 4.6.6 of the standard instead
+                # of re-requesting the missing data. Set remote ID as fault location.
+                assert self._params.remote_cfg is not None
+                self._trigger_notice_of_completion_canceled(
+                    eof_pdu.condition_code,
+                    EntityIdTlv(self._params.remote_cfg.entity_id.as_bytes),
+                )
+                self._params.finished_params.delivery_code = DeliveryCode.DATA_INCOMPLETE
+                self._params.acked_params.deferred_lost_segment_detection_active = False
+                self._prepare_eof_ack_packet()
+                self.states.step = TransactionStep.SENDING_EOF_ACK_PDU
+                return
             # The sender re-sent the EOF PDU, so the ACK (EOF) PDU was probably lost. Every
             # received EOF PDU must be acknowledged (CFDP 4.7.2).
             self._prepare_eof_ack_packet()
